@@ -134,7 +134,7 @@ func init() {
 		if tier == "thorough" {
 			depth = 6
 		}
-		return runOpsCheck("C06", tier, arg, ops, depth, "BFS over histories of authorizations (valid, duplicate, conflicting in capacity / key / reusing another device's key, flipped bit, stale signature, temp-key / server-key / foreign-GCA signatures), reports, rotation and restart on the real server through the JSON endpoint; every transition compared with the reference model (status code, device set, bans, slots, public-key index consistency); every distinct state additionally through /equipment, recent-reports, TCP sync, statistics, archive and a restart;restart differential; plus, for every field of an authorization (and for +0/-0, subnormal and 1-ulp differences of latitude and longitude), base authorization, identical resubmission, and a validly signed second authorization differing in that field only", c06Fields)
+		return runOpsCheck("C06", tier, arg, ops, depth, "BFS over histories of authorizations (valid, duplicate, conflicting in capacity / key / reusing another device's key, flipped bit, stale signature, temp-key / server-key / foreign-GCA signatures), reports, rotation and restart on the real server through the JSON endpoint; every transition compared with the reference model (status code, device set, bans, slots, public-key index consistency); every distinct state additionally through /equipment, recent-reports, TCP sync, statistics, archive and a restart;restart differential; plus, for every field of an authorization (and for +0/-0, subnormal, 1-ulp and off-globe values of latitude and longitude), base authorization, identical resubmission, and a validly signed second authorization differing in that field only", c06Fields)
 	}
 	checks["C07"] = func(tier string) int { return c07(tier) }
 	checks["C04"] = func(tier string) int {
@@ -174,7 +174,7 @@ type c06FieldJob struct {
 	Field string `json:"field"`
 }
 
-var c06FieldNames = []string{"PublicKey", "Latitude+ulp", "Longitude+ulp", "Latitude+0/-0", "Longitude+0/-0", "Latitude-subnormal", "Capacity", "Debt", "Expiration", "Initialization", "ProtocolFee", "Capacity-high-bit", "Expiration-high-bit"}
+var c06FieldNames = []string{"PublicKey", "Latitude+ulp", "Longitude+ulp", "Latitude+0/-0", "Longitude+0/-0", "Latitude-subnormal", "Capacity", "Debt", "Expiration", "Initialization", "ProtocolFee", "Capacity-high-bit", "Expiration-high-bit", "Latitude-off-globe", "Longitude-off-globe", "base-off-globe", "Capacity-max"}
 
 func c06FieldRun(j c06FieldJob) *jobReport {
 	rep := &jobReport{Reasons: map[string]int{}}
@@ -223,6 +223,16 @@ func c06FieldRun(j c06FieldJob) *jobReport {
 		other.Capacity |= 1 << 63
 	case "Expiration-high-bit":
 		other.Expiration |= 1 << 31
+	case "Latitude-off-globe":
+		other.Latitude = 91.5 // finite, not on the globe: still an authorization the GCA signed
+	case "Longitude-off-globe":
+		other.Longitude = -181.5
+	case "base-off-globe":
+		base.Latitude, base.Longitude = -1e6, 1e300
+		other = base
+		other.Debt++
+	case "Capacity-max":
+		other.Capacity = 1<<64 - 1
 	}
 	step := func(name string, ea glow.EquipmentAuthorization, wantCode int, wantOut authOutcome) bool {
 		var code int
